@@ -527,11 +527,13 @@ def order_case(ctx, rng, quick):
             "w": rng.choice([2.0, 3.0, 4.0]), "psi_seed": rng.randrange(1 << 30), "n": rng.choice(admissible_charges(family, sym, N)),
             "T": 0.5, "method": rng.choice(["1site", "2site", "12site"]),
             "precompute": rng.random() < 0.5, "hfac": gen_hfac(rng, 1)}
+    guard = 2 * GUARD_S[0 if ctx.quick else 1]   # four tdvp_ runs + four solve_ivp references, regularly 2 - 5 s together
     try:
-        with base.time_limit(40 if ctx.quick else 120):
+        with base.time_limit(guard):
             res = run_order_case(case)
     except base.CaseTimeout:
         ctx.count("case_timeouts")
+        ctx.extra["c10_lost_s"] = ctx.extra.get("c10_lost_s", 0) + guard
         return
     ctx.case(case)
     ctx.count("kind:order")
@@ -597,15 +599,27 @@ def run_order_case(case):
 
 # ==========================================================================================================
 
+GUARD_S = (10, 60)          # wall-clock guard per case (quick, thorough); regular cases take 0.05 - 4 s
+REFUND_CAP_S = (40, 240)    # at most this much time lost in guarded cases is handed back to the budget
+
+
+def elapsed(ctx, t0):
+    return time.time() - t0 - min(ctx.extra.get("c10_lost_s", 0), REFUND_CAP_S[0 if ctx.quick else 1])
+
+
 def run_case(ctx, case):
     import json
+    guard = GUARD_S[0 if ctx.quick else 1]
     try:
-        with base.time_limit(20 if ctx.quick else 90):
+        with base.time_limit(guard):
             res = run_tdvp(case)
     except base.CaseTimeout:
         # observed on the unchanged code: expmv caps the Krylov dimension by the number of STORED elements of a block-sparse
-        # vector (ncv_max = min(30, v.size)); on nearly-product symmetric states a 2-site problem then needs ~1e5 tiny steps
+        # vector (ncv_max = min(30, v.size)); on nearly-product symmetric states a 2-site problem then needs ~1e5 tiny steps.
+        # A timing is never an observable of the property: the case is dropped, but the time it burnt is handed back to the
+        # exploration budget (elapsed()) so that a few slow cases cannot starve the remaining strata
         ctx.count("case_timeouts")
+        ctx.extra["c10_lost_s"] = ctx.extra.get("c10_lost_s", 0) + guard
         ctx.notes.append(f"case skipped by the wall-clock guard: {json.dumps({k: v for k, v in case.items() if k != 'terms'})}")
         return None
     ctx.case(case, nontrivial=True)
@@ -680,13 +694,13 @@ def run(ctx):
         # are dealt from the deck inside the regime where the conservation clause applies
         deck = option_deck(rng, n)
         for i in range(n):
-            if time.time() - t0 > budget * (0.5 if kind == "trace" else 0.8):
+            if elapsed(ctx, t0) > budget * (0.5 if kind == "trace" else 0.8):
                 ctx.count(f"{kind}_cases_cut_by_budget")
                 break
             st = deck[i] if kind == "exact" else (dict(deck[i], conserve=True) if i % 2 else None)
             run_case(ctx, gen_case(rng, quick, kind, st))
     for i in range(3 if quick else 20):
-        if time.time() - t0 > budget:
+        if elapsed(ctx, t0) > budget:
             ctx.count("order_cases_cut_by_budget")
             break
         order_case(ctx, rng, quick)
